@@ -254,7 +254,7 @@ def project(events, folder, names, contents, start_mark=None, end_mark=None):
     folder = os.path.realpath(folder)
     counts = {}
     fdinfo = {}   # fd -> (rel path, is_write)
-    steps, locks = [], []
+    steps, locks, reads = [], [], []
     active = start_mark is None
     pending_write = None
 
@@ -297,6 +297,8 @@ def project(events, folder, names, contents, start_mark=None, end_mark=None):
                 continue
             if ok:
                 fdinfo[e.ret] = (r, "O_WRONLY" in fl or "O_RDWR" in fl)
+            if active and not ({"O_CREAT", "O_WRONLY", "O_RDWR"} & fl):
+                reads.append((sysc, r, "O_DIRECTORY" in fl))
             if "O_CREAT" in fl and ("O_WRONLY" in fl or "O_RDWR" in fl) and active:
                 steps.append(dict(step=("Create", names.path(r)), ok=ok, sys=[sysc]))
                 pending_write = None
@@ -369,7 +371,7 @@ def project(events, folder, names, contents, start_mark=None, end_mark=None):
             code = 0 if ("Cache" in kinds or "CRoot" in kinds) else contents.id(s.pop("data"))
             s.pop("data", None)
             s["step"] = ("Write", p, code)
-    return collapse_rmtree(steps), locks
+    return collapse_rmtree(steps), locks, reads
 
 
 def collapse_rmtree(steps):
